@@ -2,6 +2,7 @@ import Heathcliff.Proofs.C09D
 import Heathcliff.Proofs.C09E
 import Heathcliff.Proofs.C09F
 import Heathcliff.Proofs.C09G
+import Heathcliff.Proofs.GenNtt
 
 /- Property theorems only (statements verbatim; proofs are the helper lemmas of Heathcliff/Proofs). -/
 namespace HC.C09
@@ -178,6 +179,36 @@ theorem minimalRoot_least_pow2 (h : m.WF) (hp : Nat.Prime m.value) {n g : Nat} (
   HC.minimalRoot_least_pow2 h hp hn2 hg
 
 theorem root_deterministic_general_false : ¬ HC.root_deterministicStatement := HC.root_deterministicStatement_false
+
+/-! ### translator tie: `impl Arithmetic for ModArithLazy`, `ModArithLazy::new` (src/util/ntt.rs) generated into Gen/NttFns.lean
+     equal the instance `modArithLazy` the layers `fwdLayer`/`invLayer` are run with (Proofs/GenNtt.lean).  The hypotheses say exactly
+     that the overflow-checked `+`/`-` of the code do not trap (the hand model uses unbounded `Nat`). -/
+theorem gen_mal_new_modulus (m : Modulus) : (GenN.mal_new m).modulus = m := HC.gx_mal_new_modulus m
+theorem gen_mal_new_two (m : Modulus) (hm : m.value < 2^63) : (GenN.mal_new m).two_times_modulus = 2 * m.value := HC.gx_mal_new_two m hm
+theorem gen_mal_add_eq (s : GenN.ModArithLazy) (m : Modulus) (a b : Nat) (h : a + b < 2^64) :
+    GenN.mal_add s a b = .ok ((modArithLazy m).add a b) := HC.gx_mal_add_eq s m a b h
+theorem gen_mal_sub_eq (s : GenN.ModArithLazy) (m : Modulus) (a b : Nat) (hs : s.two_times_modulus = 2 * m.value)
+    (h1 : a + 2 * m.value < 2^64) (h2 : b ≤ a + 2 * m.value) :
+    GenN.mal_sub s a b = .ok ((modArithLazy m).sub a b) := HC.gx_mal_sub_eq s m a b hs h1 h2
+theorem gen_mal_mul_root_eq (s : GenN.ModArithLazy) (m : Modulus) (a : Nat) (r : MulOperand) (hs : s.modulus = m) :
+    GenN.mal_mul_root s a r = (modArithLazy m).mulRoot a r := HC.gx_mal_mul_root_eq s m a r hs
+theorem gen_mal_mul_scalar_eq (s : GenN.ModArithLazy) (m : Modulus) (a : Nat) (r : MulOperand) (hs : s.modulus = m) :
+    GenN.mal_mul_scalar s a r = (modArithLazy m).mulRoot a r := HC.gx_mal_mul_scalar_eq s m a r hs
+theorem gen_mal_guard_eq (s : GenN.ModArithLazy) (m : Modulus) (a : Nat) (hs : s.two_times_modulus = 2 * m.value) :
+    GenN.mal_guard s a = .ok ((modArithLazy m).guard a) := HC.gx_mal_guard_eq s m a hs
+theorem gen_new_add_eq (m : Modulus) (a b : Nat) (h : a + b < 2^64) :
+    GenN.mal_add (GenN.mal_new m) a b = .ok ((modArithLazy m).add a b) := HC.gx_new_add_eq m a b h
+theorem gen_new_sub_eq (m : Modulus) (hm : m.value < 2^63) (a b : Nat) (h1 : a + 2 * m.value < 2^64) (h2 : b ≤ a + 2 * m.value) :
+    GenN.mal_sub (GenN.mal_new m) a b = .ok ((modArithLazy m).sub a b) := HC.gx_new_sub_eq m hm a b h1 h2
+theorem gen_new_mul_root_eq (m : Modulus) (a : Nat) (r : MulOperand) :
+    GenN.mal_mul_root (GenN.mal_new m) a r = (modArithLazy m).mulRoot a r := HC.gx_new_mul_root_eq m a r
+theorem gen_new_mul_scalar_eq (m : Modulus) (a : Nat) (r : MulOperand) :
+    GenN.mal_mul_scalar (GenN.mal_new m) a r = (modArithLazy m).mulRoot a r := HC.gx_new_mul_scalar_eq m a r
+theorem gen_new_guard_eq (m : Modulus) (hm : m.value < 2^63) (a : Nat) :
+    GenN.mal_guard (GenN.mal_new m) a = .ok ((modArithLazy m).guard a) := HC.gx_new_guard_eq m hm a
+
+theorem gen_is_primitive_root_eq (root degree : Nat) (m : Modulus) (hm : 1 ≤ m.value) :
+    GenN.is_primitive_root root degree m = isPrimitiveRoot root degree m := HC.gx_is_primitive_root_eq root degree m hm
 
 /-- non-vacuity: q = 17, N = 4 (2N = 8 divides 16): 2 is a primitive 8th root (2^4 = 16 = -1) -/
 example : IsPrim 4 17 2 := by unfold IsPrim; decide
